@@ -56,6 +56,9 @@ Failures(r) ==
     \cup (IF \E i \in 1..Len(real) : r.derivs[i].exposure # "none" /\ ~RR!LabelSound(real[i].rule.out, r.derivs[i].exposure) THEN {"ExposureSound"} ELSE {})
     \cup (IF r.entry = "dp" /\ r.outcome = "ok" /\ \E c \in ch : r.derivs[c].exposure # "none" /\ RR!Rank(r.derivs[c].exposure) > RR!Rank("Noised")
           THEN {"RootNotExposed"} ELSE {})
+    \* the same on the relation the entry point returned, whether or not it was recognised as one of the derivations
+    \cup (IF r.entry = "dp" /\ r.outcome = "ok" /\ r.result_exposure # "none" /\ RR!Rank(r.result_exposure) > RR!Rank("Noised")
+          THEN {"ResultNotExposed"} ELSE {})
 
 Drifts(r) ==
     LET t == r.tree
